@@ -662,23 +662,7 @@ func (c *vfC03Conc) audit(ws []*vfC03Worker, round int, final bool) {
 			c.rp.tr.Emit("final")
 		}
 	} else if round%2 == 1 {
-		// scope GC, as long as no peer / protocol scope holds a View reservation (the GC forgets
-		// that memory: known finding, decided by the sequential "gcmem" instance)
-		held := int64(0)
-		for _, s := range c.cf.named {
-			if (strings.HasPrefix(s, "peer:") || strings.HasPrefix(s, "proto:")) && !strings.Contains(s, ".peer:") {
-				if c.races {
-					held += r.lg.direct[s]
-				} else {
-					for _, w := range ws {
-						held += w.ledger().direct[s]
-					}
-				}
-			}
-		}
-		if held == 0 {
-			c.rm.gc()
-		}
+		c.rm.gc() // scope GC at a quiescent point, also while View scopes hold reservations
 	}
 }
 
